@@ -8,5 +8,8 @@ def run(c):
     obl_fixed.obl_layout_key(c, budget_s=1200)
     # the same property on the layout object the crate's own Layout::parse builds from the file content (whatever the representation)
     obl_fixed.obl_layout_table(c, thorough=(c.tier == "thorough"), budget_s=1200)
+    # "the loaded layout file": also the file loaded by a re-configuration of a live context (fixed layout -> another fixed layout)
+    import obl_context
+    obl_context.obl_layout_switch(c, budget_s=600)
     c.outside("serde_json's conversion of the layout file into a name -> text map and the content of the bundled Probhat.json; "
               "multi-code-point entries that start with a vowel sign (the helper chain keeps only the sign: recorded, not judged)")
